@@ -12,3 +12,5 @@ import DDS.Props.C15
 import DDS.Props.C16
 import DDS.Props.C18
 import DDS.Props.C18Bits
+import DDS.Props.C10
+import DDS.Props.C20
